@@ -45,10 +45,27 @@ RtNames  == {<<97>>, <<233, 61>>, <<>>}
 RtValues == {<<>>, <<49>>, <<97, 44, 98>>, <<38, 61>>, <<37, 52, 49, 43, 32>>}
 EntriesOf(n) == {[k |-> n, v |-> <<x>>, shape |-> "scalar"] : x \in RtValues}
                 \cup {[k |-> n, v |-> vs, shape |-> "list"] : vs \in SeqsUpTo(RtValues, 2)}
+(* values as to_query_str documents them: "a str or something that can be converted into a str" - the texts
+   str() gives for floats, ints and bools (the harness passes the objects; the text is their rendering):
+   1e+16  1e+100  -1e-07  inf  nan  -3  18446744073709551616  1.5  true *)
+TypedTexts == { <<49, 101, 43, 49, 54>>,
+                <<49, 101, 43, 49, 48, 48>>,
+                <<45, 49, 101, 45, 48, 55>>,
+                <<105, 110, 102>>,
+                <<110, 97, 110>>,
+                <<45, 51>>,
+                <<49, 56, 52, 52, 54, 55, 52, 52, 48, 55, 51, 55, 48, 57, 53, 53, 49, 54, 49, 54>>,
+                <<49, 46, 53>>,
+                <<116, 114, 117, 101>> }
+TypedEntries == {[k |-> <<120>>, v |-> <<x>>, shape |-> "scalar"] : x \in TypedTexts}
+                \cup {[k |-> <<120>>, v |-> vs, shape |-> "list"] : vs \in SeqsUpTo(TypedTexts, 2)}
+TypedMappings == {<<e>> : e \in TypedEntries}
+                 \cup {<<e, [k |-> <<97>>, v |-> <<<<49>>>>, shape |-> "scalar"]>> : e \in TypedEntries}
 RtMappings == {<<e>> : e \in UNION {EntriesOf(n) : n \in RtNames}}
               \cup {<<e1, e2>> : e1 \in EntriesOf(<<97>>), e2 \in EntriesOf(<<233, 61>>)}
               \cup {<<e1, e2>> : e1 \in EntriesOf(<<233, 61>>), e2 \in EntriesOf(<<97>>)}
-RtMappingsQ == {<<e>> : e \in UNION {EntriesOf(n) : n \in RtNames}}
+              \cup TypedMappings
+RtMappingsQ == {<<e>> : e \in UNION {EntriesOf(n) : n \in RtNames}} \cup TypedMappings
 
 XParse   == (\E k, c \in BOOLEAN : DoParse(k, c)) /\ phase = "init"
 XReparse == (\E k, c \in BOOLEAN : DoParse(k, c)) /\ phase = "rendered"
